@@ -365,6 +365,33 @@ def census(res, ctx, rng):
         res.count('census_codes_nested', len(todo[b:b + 60]))
 
 
+def wide_nesting(res, ctx, rng):
+    """Nesting width: while a BSD call is in flight its thread opens thousands of windows of ids the filter does not admit
+    (application signposts that never end).  Filtered and unfiltered runs see very different numbers of open windows; the
+    call reads the same in both."""
+    from pykdebugparser.pykdebugparser import PyKdebugParser
+    for n in [n for i, n in enumerate((4095, 4096, 4097, 5000)) if ctx.mine(i)]:
+        seq = H.path_syscall(rng, 'BSC_open', 1, error=0, interleave_unrelated=False)
+        events, _ = H.stretched_events(seq, 1, n, rng, tid=11, t0=0x100000001, wide=True)
+        events += H.materialize(H.on_thread(12, H.syscall('BSC_getpid', (0, 0, 0, 0), (0, 77, 0, 0))), t0=events[-1].timestamp + 7)
+        entries = [(11, 100, b'proc0', b''), (12, 200, b'proc1', b'')]
+        dump = {'data': wire.v2_file(entries, 8, gen.events_to_records(events)), 'events': events, 'entries': entries,
+                'static_map': True}
+        try:
+            unfiltered = [key(t) for t in PyKdebugParser().traces(io.BytesIO(dump['data']))]
+        except Exception as x:
+            res.violation(f'c13-raises-{core.exc_name(x)}', f'{n} windows open at once: {x!r}', {'file': dump['data']})
+            return
+        for cfg in ({'tid': None, 'classes': [4], 'subs': [], 'process': None},
+                    {'tid': None, 'classes': [], 'subs': [0x040c], 'process': None},
+                    {'tid': None, 'classes': [4, 0x21], 'subs': [], 'process': None}):
+            before = len(res.violations)
+            check(res, rng, dump, cfg, unfiltered, None)
+            if len(res.violations) > before:
+                return
+        res.count('wide_nesting_dumps')
+
+
 def long_capture(res, ctx, rng, n_workers):
     """Scale ladder: process and thread filters on a long capture (thousands of short-lived threads); membership is
     judged with the incremental table model of C14 (process text of the emitting thread at the trace's trigger)."""
@@ -434,6 +461,7 @@ def run(ctx):
         check_reconfigured(res, rng, dump, unfiltered)
         prev = dump
     census(res, ctx, rng)
+    wide_nesting(res, ctx, rng)
     if ctx.shard == 0:
         for n in ctx.pick((2600,), (2600, 12000)):
             long_capture(res, ctx, rng, n)
@@ -455,6 +483,7 @@ def run(ctx):
     res.require('reconfigured_requests', 20)
     res.require('settings_edited_in_place', 5)
     res.require('census_codes_nested', 2500)
+    res.require('wide_nesting_dumps', 4)
     res.require('cli_requests_compared', 20)
     res.require('long_capture_traces_selected', 100)
     return res
